@@ -12,7 +12,8 @@ import vlib
 PID = "C16"
 THEOREMS = [
     "c16_decode_format", "c16_decode_concat", "c16_header_like_text_harmless",
-    "c16_rotation_lossless", "c16_rotation_gc_history",
+    "c16_rotation_lossless", "c16_rotation_lossless_after_flush", "c16_flush_leaves_nothing_buffered",
+    "c16_sync_mode_writes_through", "c16_rotation_gc_history",
     "c16_gc_keeps_newest", "c16_gc_keeps_only_within_bound", "c16_gc_incl", "c16_gc_keeps_current",
 ]
 REFUTED = ["c16_round_trip_refuted"]
@@ -135,12 +136,12 @@ def hist_signature(c, lossless_bad):
     for o in ops:
         if o["Op"] == "log":
             pending.append(o["Id"])
-        elif o["Op"] in ("snap", "gc"):
+        elif o["Op"] in ("snap", "peek", "gc"):
             if si >= len(snaps):
                 return "history-other"
             sn = snaps[si] or []
             si += 1
-            if o["Op"] == "snap":
+            if o["Op"] in ("snap", "peek"):
                 ids = [i for f in sn for i in (f["Ids"] or [])]
                 pids = [i for f in prev for i in (f["Ids"] or [])]
                 if ids != pids + pending:
@@ -175,6 +176,8 @@ def run(tier, seed):
         "civil time <-> int64 nanoseconds (time.Unix(0,ns).UTC().Date()/Clock(), time.Parse(...).UnixNano()) is outside the model: the harness converts with the real time package on both sides",
         "bufio.Scanner's buffer is not modelled: the model's split sees the whole remaining input; true of the real decoder as long as an entry plus the header of the next fits in bufio.MaxScanTokenSize (65536 bytes); generated entries stay below 21 KB",
         "regexp, time.Parse, strconv.Atoi and strings.TrimSpace are modelled by hand-written functions (match_at, time_ok, span_digits, trim_space) and exercised by the cases, incl. perturbed streams; a multi-byte rune matched by the regexp's unescaped '.' is outside the model",
+        "the harness process runs with time.Local set to a fixed non-UTC zone (offset chosen by the seed, in distribution.local_zone_offset_s) and converts with .UTC() itself",
+        "buffered mode: what is in the files before a flush depends on the asynchronous flush daemon and is not compared; files are looked at right after Flush(), or without a flush only while sync mode is on",
         "rotation/GC: a message is (identifier, byte length of its formatted entry); the per-file header entries are a constant size measured by calibration at the start and re-checked at the end of the run; sizes are sizes after log.Flush(); GC runs right after a flush; file names generated by create() are assumed new",
         "header widths are constant only if the goroutine id the logger prints is: the vendored petermattis/goid (2018) reads a runtime status word on go1.23 (2, or 4098 while the GC scans the stack), so the harness runs the logger histories with the Go garbage collector off and discards+redoes a history in whose files two goroutine ids appear (count: distribution.hist_discarded_goid_glitch)",
         "planted files have distinct time stamps older than the run (sort order of equal stamps is unspecified in selectFiles)",
@@ -218,11 +221,11 @@ def run(tier, seed):
                  "raw: one perturbation of a valid stream (30 kinds: separators, impossible dates, truncation, garbage, CRLF, out-of-range numbers), decoder vs model; distinct by stream. "
                  "probe: 20 kinds of entries outside the guards (white space at message edges, colon/empty/newline file names, negative numbers, years outside 2000-2068, multi-line messages), model agreement only. "
                  "hist: real main/secondary logger in a fresh directory, LogFileMaxSize in {64..4096} around the measured header size, entry sizes steered to the rotation threshold +-2 using the real syncBuffer.nbytes, "
-                 "threshold changes, snapshots (flush, list, decode every file), GC runs with bounds at the cumulative sizes +-1 / 0 / MaxInt64, planted older files; gc-only: planted file sets + GC. "
+                 "threshold changes, snapshots (flush, list, decode every file), SetSync(true) followed by a flush and a snapshot with no write in between (and SetSync(false) back), looks at the files without a flush while in sync mode, GC runs with bounds at the cumulative sizes +-1 / 0 / MaxInt64, planted older files; gc-only: planted file sets + GC. "
                  "non-trivial = at least two files at the end or a GC run; distinct by operation list."),
         "samples": summary["samples"],
         "distribution": {k: summary[k] for k in ("codec", "codec_entries", "codec_classes", "raw", "raw_kinds", "probe",
-                                                  "hist", "hist_error", "hist_discarded_goid_glitch", "hist_log_ops", "hist_gc_ops", "hist_files_at_end", "calibration")},
+                                                  "local_zone_offset_s", "hist", "hist_error", "hist_discarded_goid_glitch", "hist_log_ops", "hist_gc_ops", "hist_files_at_end", "calibration")},
         "outside_guard_probes": {"kinds": summary["probe_kinds"], "real_roundtrip_failures": summary["probe_roundtrip_failures"]},
         "traces_validated_against_impl": summary["hist"],
         "shards": nshards,
